@@ -131,7 +131,7 @@ def length_contribs(view):
         fld = None
         best = -1
         for g in gs:
-            mm = re.match(r'^Option::is_some\((\w+(?:[.@]\w+)*)\)$', g) or re.match(r'^(\w+(?:[.@]\w+)*) is Some$', g)
+            mm = re.match(r'^(\w+(?:[.@]\w+)*) is Some$', g) or re.match(r'^(\w+(?:[.@]\w+)*) is Some$', g)
             if mm and len(mm.group(1)) > best and '.' in mm.group(1):
                 best = len(mm.group(1))
                 fld = field_path(mm.group(1))
@@ -182,3 +182,34 @@ def first_call_from(view, bb, limit=12):
             return None
         cur = ss[0]
     return None
+
+
+
+def _stem(w):
+    w = w.lower()
+    if w.endswith('ies'):
+        return w[:-3] + 'y'
+    if w.endswith('s') and not w.endswith('ss') and len(w) > 3:
+        return w[:-1]
+    return w
+
+
+UNIT_WORDS = {'seconds', 'second', 'bytes', 'byte', 'type'}
+
+
+def name_agrees(field, spec_name):
+    """The struct field (`message_expiry_interval_seconds`, `payload_format`, `subscription_id`)
+    names the specification property (`Message Expiry Interval`, `Payload Format Indicator`,
+    `Subscription Identifier`): every word of the field is (a prefix of) a word of the property name,
+    the first words agree; unit suffixes are ignored."""
+    fw = [_stem(x) for x in re.split(r'[_.]', field.split('.')[-1]) if x]
+    sw = [_stem(x) for x in re.split(r'[\s_-]+', spec_name) if x]
+    while len(fw) > 1 and fw[-1] in UNIT_WORDS and fw[-1] not in sw:
+        fw = fw[:-1]
+    if not fw or not sw:
+        return False
+    def m(a, b):
+        return a == b or (len(a) >= 2 and b.startswith(a))
+    if not m(fw[0], sw[0]):
+        return False
+    return all(any(m(a, b) for b in sw) for a in fw)
